@@ -24,7 +24,7 @@ from hypothesis import strategies as st
 from vlib import core, tools
 from vlib.core import Check, Discard, Inconclusive, OracleSplit, Violation
 from vlib.elf import Elf
-from checks.c12 import replay_inproc, run_inproc
+from checks.c12 import patient, replay_inproc, run_inproc
 
 MIB = 1 << 20
 R_JUMP26, R_CALL26 = 282, 283
@@ -401,7 +401,7 @@ class C11(Check):
         for L in ("lld", "wild"):
             a = list(args)
             a[3] = f"{L}.out"
-            r = tools.link(L, a, cwd=d, timeout=300)
+            r = patient(tools.link, L, a, cwd=d, timeout=400, attempts=2)
             if r.timed_out:
                 raise Inconclusive(f"{L} timed out")
             res[L] = r
